@@ -59,6 +59,7 @@ type c05Half struct {
 	eof        bool // writer shut its write side
 	rst        bool // writer reset the connection
 	readerGone bool // reader closed: writes fail
+	lastWithTerm bool // the read returning the last queued segment also reports the end
 	notify     chan struct{}
 }
 
@@ -131,6 +132,15 @@ func (c *c05Conn) read(p []byte) (int, error) {
 				c.rd.q[0] = ch[n:]
 			} else {
 				c.rd.q = c.rd.q[1:]
+				// a conn that reports the end together with the last segment ((n>0, io.EOF) / (n>0, err))
+				if c.rd.lastWithTerm && len(c.rd.q) == 0 && (c.rd.eof || c.rd.rst) {
+					rst := c.rd.rst
+					c.rd.mu.Unlock()
+					if rst {
+						return n, c05ResetErr()
+					}
+					return n, io.EOF
+				}
 			}
 			c.rd.mu.Unlock()
 			return n, nil
@@ -1150,8 +1160,8 @@ func TestVerifC05Conn(t *testing.T) {
 			for _, pr := range strings.Split(of, ",") {
 				var have, size int
 				fmt.Sscanf(pr, "%d:%d", &have, &size)
-				if have > 4096 {
-					stats.Inc("sniff.buffer-over-4KiB")
+				if have >= 4096 {
+					stats.Inc("sniff.buffer-reaches-4KiB-and-reads-on")
 					break
 				}
 			}
